@@ -195,6 +195,7 @@ type Config struct {
 	StubConst     map[string]uint64
 	StubFirstByte []string
 	CasesAsForks  bool
+	SelfSeed      uint64
 	NamePrefix    string
 }
 
